@@ -89,6 +89,12 @@ type xdsClient struct {
 	// presentNonce: a delta client's first request of a type on a new stream carries the nonce of the old stream
 	// (state-of-the-world requests always carry the retained version and nonce)
 	presentNonce bool
+	// Envoy's cluster warming on a new stream (envoyproxy/envoy#13009): when the endpoint request preceded the cluster
+	// request on this stream, the clusters of the first cluster response warm, Envoy asks for their endpoints again
+	// (same names, nonce of the endpoint response it already acknowledged) and waits for an answer.
+	permuted    bool // dependents were requested before their roots on the current stream
+	cdsSeen     bool // a cluster response was accepted on the current stream
+	warmPending bool // the re-request after the first cluster response has not been answered yet
 }
 
 func newXdsClient(name string, node *core.Node, delta bool, roots []string) *xdsClient {
@@ -324,6 +330,7 @@ func (c *xdsClient) startStream(permuteDeps bool) {
 		s.requested = false
 		s.rejected = false
 	}
+	c.permuted, c.cdsSeen, c.warmPending = permuteDeps, false, false
 	order := append([]string(nil), c.roots...)
 	deps := []string{}
 	for _, t := range []string{v3.EndpointType, v3.RouteType, v3.ExtensionConfigurationType} {
@@ -436,10 +443,22 @@ func (c *xdsClient) onSotwResponse(step int, resp *discovery.DiscoveryResponse) 
 		s.order = append(s.order, r.name)
 	}
 	c.enqueue(c.sotwRequest(t)) // ACK
+	if t == v3.EndpointType && c.cdsSeen {
+		c.warmPending = false
+	}
 	if c.deriveDeps {
 		switch t {
 		case v3.ClusterType:
+			first := !c.cdsSeen
+			c.cdsSeen = true
+			queued := len(c.outq)
 			c.resubscribe(v3.EndpointType, edsNamesFromClusters(s.held))
+			if es := c.state(v3.EndpointType); first && c.permuted && es.requested && es.nonce != "" && len(es.names) > 0 {
+				if len(c.outq) == queued { // the name set did not change: the warming request repeats the acknowledged one
+					c.enqueue(c.sotwRequest(v3.EndpointType))
+				}
+				c.warmPending = true
+			}
 		case v3.ListenerType:
 			c.resubscribe(v3.RouteType, rdsNamesFromListeners(s.held))
 			c.resubscribe(v3.ExtensionConfigurationType, ecdsNamesFromListeners(s.held))
